@@ -17,8 +17,8 @@ EXTENDS IncrRef, Json, IOUtils, TLCExt
 Rec == ndJsonDeserialize(IOEnv.TRACE)
 DefaultMaxH == 128
 
-VARIABLES st, l, nbad, ndiv
-tvars == <<st, l, nbad, ndiv>>
+VARIABLES st, l, nbad, ndiv, iddiv
+tvars == <<st, l, nbad, ndiv, iddiv>>
 
 ---------------------------------------------------------------------------
 (* Run a whole stabilise (the spec's step actions composed)                 *)
@@ -65,29 +65,37 @@ JudgeReads(post, obs) ==
                                    w[1] = "err" /\ w[2] \in {"NeverStabilised", "CurrentlyStabilising"}}}
 
 \* invocation log of the round against the reference (C02, C03, C05, C06)
-JudgeInv(pre, obs, coneB) ==
-  LET got == obs.inv
-      want == pre.inv
+\* Which nodes are recomputed in a round is fixed by the properties EXCEPT for nodes that are needed
+\* when stabilise is called but no longer when it returns (a bind switched away from them): the
+\* engine may reach them before or after they stop being needed, depending on its schedule among
+\* equal-or-incomparable heights.  Those (opt) may run or not; everything else is exact.
+\* lim: ids above it were allocated in a round whose allocation order differs from the spec's
+\* (see Aligned) and are not compared.
+JudgeInv(pre, obs, coneB, lim) ==
+  LET got == SelectSeq(obs.inv, LAMBDA g : g.n <= lim)
+      want == SelectSeq(pre.inv, LAMBDA g : g.n <= lim)
       gotNodes == {got[i].n : i \in 1..Len(got)}
       wantNodes == {want[i].n : i \in 1..Len(want)}
-      cone == coneB \cup ConeOf(pre, ObservedNodes(pre, LinkedObs(pre)), {})
+      coneE == ConeOf(pre, ObservedNodes(pre, LinkedObs(pre)), {})
+      cone == coneB \cup coneE
+      opt == coneB \ coneE
       known(n) == n >= 1 /\ n <= pre.n
       stale(n) == known(n) /\ pre.scope[n] # 0 /\ pre.born[n] < pre.gen[pre.scope[n]]
       gotSorted == SortedInvOf(got)
   IN {Viol("C02", <<"node", n, "ran more than once in one stabilise">>) :
         n \in {m \in gotNodes : Cardinality({i \in 1..Len(got) : got[i].n = m}) > 1}}
      \cup {Viol("C03", <<"node", n, "created by a superseded run of its bind was invoked">>) :
-        n \in {m \in gotNodes : stale(m)}}
+        n \in {m \in gotNodes : stale(m) /\ m \notin opt}}
      \cup {Viol("C05", <<"node", n, "invoked outside the cone of every live observer">>) :
         n \in {m \in gotNodes : known(m) /\ ~stale(m) /\ m \notin cone}}
      \cup {Viol("C06", <<"node", n, "re-invoked although no input produced an unsuppressed result">>) :
-        n \in {m \in gotNodes \ wantNodes : known(m) /\ ~stale(m) /\ m \in cone}}
+        n \in {m \in gotNodes \ wantNodes : known(m) /\ ~stale(m) /\ m \in cone /\ m \notin opt}}
      \cup {Viol("C06", <<"node", n, "not re-invoked although an input changed">>) :
-        n \in wantNodes \ gotNodes}
+        n \in (wantNodes \ gotNodes) \ opt}
      \cup {Viol("C02", <<"node", gotSorted[i].n, "ran with", gotSorted[i].args, "final inputs", ArgsOf(pre, gotSorted[i].n)>>) :
         i \in {j \in 1..Len(gotSorted) :
                  LET n == gotSorted[j].n IN
-                 /\ known(n) /\ n \in wantNodes /\ pre.valid[n]
+                 /\ known(n) /\ n \in wantNodes /\ n \notin opt /\ pre.valid[n]
                  /\ pre.def[n].k \in {"map", "map2", "fold", "lhs"}
                  /\ \A c \in 1..Len(pre.def[n].ins) : pre.valid[pre.def[n].ins[c]]
                  /\ gotSorted[j].args # ArgsOf(pre, n)}}
@@ -99,22 +107,28 @@ JudgeMemo(pre, obs) ==
   ELSE {Viol("C20", <<"memoised builder invocations", got, "expected", pre.memoLog>>)}
 
 \* C06: function cutoffs are consulted with (old, new) in that order, exactly when the spec says
-JudgeCut(pre, obs) ==
-  LET got == {[n |-> obs.cut[i].n, old |-> obs.cut[i].old, new |-> obs.cut[i].new] : i \in 1..Len(obs.cut)}
-      want == {pre.cutLog[i] : i \in 1..Len(pre.cutLog)} IN
+\* (not compared for nodes whose recomputation is optional in this round, see JudgeInv)
+JudgeCut(pre, obs, coneB, lim) ==
+  LET opt == coneB \ ConeOf(pre, ObservedNodes(pre, LinkedObs(pre)), {})
+      keep(n) == n <= lim /\ n \notin opt
+      got == {[n |-> obs.cut[i].n, old |-> obs.cut[i].old, new |-> obs.cut[i].new] : i \in {j \in 1..Len(obs.cut) : keep(obs.cut[j].n)}}
+      want == {pre.cutLog[i] : i \in {j \in 1..Len(pre.cutLog) : keep(pre.cutLog[j].n)}} IN
   IF got = want THEN {} ELSE {Viol("C06", <<"cutoff consultations (node, old, new)", got, "expected", want>>)}
 
 \* C07: reads issued from inside user functions of the round
 JudgeInReads(pre, obs) ==
   LET got == [i \in 1..Len(obs.inreads) |-> [o |-> obs.inreads[i].o, r |-> obs.inreads[i].r]] IN
-  IF got = pre.readLog THEN {} ELSE {Viol("C07", <<"reads inside functions", got, "expected", pre.readLog>>)}
+  \* as multisets: the order in which functions at incomparable heights run is not promised
+  IF \A x \in SeqSet(got) \cup SeqSet(pre.readLog) :
+        Cardinality({i \in 1..Len(got) : got[i] = x}) = Cardinality({i \in 1..Len(pre.readLog) : pre.readLog[i] = x})
+  THEN {} ELSE {Viol("C07", <<"reads inside functions", got, "expected", pre.readLog>>)}
 
 \* when the stabilise panicked half-way (e.g. a debug assertion): what did run is still judged
-JudgeInvPartial(pre, obs, coneB) == {v \in JudgeInv(pre, obs, coneB) : v.prop # "C06"}
+JudgeInvPartial(pre, obs, coneB, lim) == {v \in JudgeInv(pre, obs, coneB, lim) : v.prop # "C06"}
 
-JudgeVars(post, obs) ==
+JudgeVars(post, obs, lim) ==
   {Viol("C08", <<"var", v, "holds", obs.cells[v], "expected", post.cell[v]>>) :
-     v \in {x \in 1..Min(post.n, Len(obs.cells)) :
+     v \in {x \in 1..Min(lim, Min(post.n, Len(obs.cells))) :
               post.def[x].k = "var" /\ obs.cells[x][1] # "gone" /\ obs.cells[x] # post.cell[x]}}
   \* only the promised direction: pending propagation (a write to a necessary var) => not stable
   \cup (IF obs.stable /\ post.rchLen > 0
@@ -177,49 +191,44 @@ JudgeDropAll(e) ==
   ELSE {}
 
 ---------------------------------------------------------------------------
-(* C11: the audit evaluated on the state RECONSTRUCTED from the snapshot    *)
-SnapState(post, sn) ==
-  LET N == Min(post.n, Len(sn.valid)) IN
-  [post EXCEPT
-     !.valid = [n \in 1..post.n |-> IF n <= N THEN sn.valid[n] ELSE post.valid[n]],
-     !.height = [n \in 1..post.n |-> IF n <= N THEN sn.h[n] ELSE post.height[n]],
-     !.hHeap = [n \in 1..post.n |-> IF n <= N THEN sn.hrch[n] ELSE post.hHeap[n]],
-     !.hAhh = [n \in 1..post.n |-> IF n <= N THEN sn.hahh[n] ELSE post.hAhh[n]],
-     !.par = [n \in 1..post.n |-> IF n <= N THEN sn.par[n] ELSE post.par[n]],
-     !.cip = [n \in 1..post.n |-> IF n <= N THEN sn.cip[n] ELSE post.cip[n]],
-     !.pic = [n \in 1..post.n |-> IF n <= N THEN sn.pic[n] ELSE post.pic[n]],
-     !.recAt = [n \in 1..post.n |-> IF n <= N THEN sn.recat[n] ELSE post.recAt[n]],
-     !.chgAt = [n \in 1..post.n |-> IF n <= N THEN sn.chgat[n] ELSE post.chgAt[n]],
-     !.numH = [n \in 1..post.n |-> IF n <= N THEN sn.numh[n] ELSE post.numH[n]],
-     !.nobs = [n \in 1..post.n |-> IF n <= N THEN SeqSet(sn.nobs[n]) ELSE post.nobs[n]],
-     !.rhs = [n \in 1..post.n |-> IF n <= N THEN sn.rhs[n] ELSE post.rhs[n]],
-     !.force = [n \in 1..post.n |-> IF n <= N THEN sn.force[n] ELSE post.force[n]],
-     !.val = [n \in 1..post.n |-> IF n <= N THEN sn.val[n] ELSE post.val[n]],
-     !.setAt = [n \in 1..post.n |-> IF n <= N THEN sn.setat[n] ELSE post.setAt[n]],
-     !.rel = SeqSet(sn.rel),
-     !.rch = [h \in {sn.rch[i][1] : i \in 1..Len(sn.rch)} |->
-                sn.rch[CHOOSE i \in 1..Len(sn.rch) : sn.rch[i][1] = h][2]],
-     !.rchLen = sn.rchlen, !.rchLower = sn.rchlower, !.rchMax = sn.rchmax,
-     !.ahhLen = sn.ahhlen, !.ahhMax = sn.ahhmax, !.ahhSeen = sn.ahhseen, !.ahhQ = QEmpty,
-     !.pinv = sn.pinv,
-     !.ostate = [o \in 1..post.no |-> IF o <= Len(sn.ostate) THEN sn.ostate[o] ELSE post.ostate[o]],
-     !.stats = [post.stats EXCEPT !.becameNec = sn.becamenec, !.becameUnnec = sn.becameunnec],
-     !.status = sn.status, !.num = sn.num]
+(* C11: the audit evaluated on the state RECONSTRUCTED from the snapshot -   *)
+(* from the snapshot alone (its own kinds, edges, index arrays, heights,    *)
+(* heap, counters), never from the spec's state: the judgement does not     *)
+(* depend on the engine having made the same scheduling choices as the spec *)
+SnapState(sn) ==
+  LET N == Len(sn.valid) IN
+  [n |-> N, def |-> sn.def, valid |-> sn.valid, val |-> sn.val,
+   recAt |-> sn.recat, chgAt |-> sn.chgat, setAt |-> sn.setat,
+   height |-> sn.h, hHeap |-> sn.hrch, hAhh |-> sn.hahh,
+   par |-> sn.par, cip |-> sn.cip, pic |-> sn.pic,
+   scope |-> [i \in 1..N |-> Max(sn.scope[i], 0)],
+   force |-> sn.force, numH |-> sn.numh,
+   nobs |-> [i \in 1..N |-> SeqSet(sn.nobs[i])],
+   rhs |-> sn.rhs,
+   edges |-> [i \in 1..N |-> [j \in 1..Len(sn.xedges[i]) |-> [child |-> sn.xedges[i][j]]]],
+   fstale |-> sn.fstale,
+   rel |-> SeqSet(sn.rel),
+   rch |-> [h \in {sn.rch[i][1] : i \in 1..Len(sn.rch)} |->
+              sn.rch[CHOOSE i \in 1..Len(sn.rch) : sn.rch[i][1] = h][2]],
+   rchLen |-> sn.rchlen, rchLower |-> sn.rchlower, rchMax |-> sn.rchmax,
+   ahhLen |-> sn.ahhlen, ahhMax |-> sn.ahhmax, ahhSeen |-> sn.ahhseen, ahhQ |-> QEmpty,
+   pinv |-> sn.pinv,
+   no |-> Len(sn.ostate), ostate |-> sn.ostate, onode |-> sn.onode,
+   osubs |-> [o \in 1..Len(sn.ohandlers) |-> [j \in 1..sn.ohandlers[o] |-> 0]],
+   stats |-> [becameNec |-> sn.becamenec, becameUnnec |-> sn.becameunnec],
+   status |-> sn.status, num |-> sn.num, panic |-> ""]
 
 JudgeAudit(post, obs) ==
-  \* (if the code created other nodes than the spec, ids no longer correspond: other judges report it)
-  IF obs.panic # "" \/ ~Ok(post) \/ obs.snap.status # "idle" \/ Len(obs.snap.valid) # post.n
-     \/ Len(obs.snap.ostate) # post.no THEN {} ELSE
-  LET s == SnapState(post, obs.snap) IN
-  {Viol("C11", <<"audit failed", p>>) : p \in AuditParts(s)}
+  IF obs.panic # "" \/ ~Ok(post) \/ obs.snap.status # "idle" THEN {} ELSE
+  {Viol("C11", <<"audit failed", p>>) : p \in AuditParts(SnapState(obs.snap))}
 
 \* C12: released nodes = nodes no strong reference reaches
 \* (the property promises release "after one stabilise has run": leaks are judged right after a
 \* stabilise only; a node freed while still referenced is wrong at any time)
-JudgeOwn(post, obs, afterStabilise) ==
+JudgeOwn(post, obs, afterStabilise, lim) ==
   IF obs.panic # "" \/ ~Ok(post) \/ post.poisoned \/ post.status # "idle" THEN {} ELSE
-  LET rel == SeqSet(obs.snap.rel) \cap (1..post.n)
-      want == Released(post) IN
+  LET rel == SeqSet(obs.snap.rel) \cap (1..Min(lim, post.n))
+      want == Released(post) \cap (1..lim) IN
   (IF afterStabilise
    THEN {Viol("C12", <<"node", n, "is still alive although nothing references it">>) : n \in want \ rel}
    ELSE {})
@@ -252,42 +261,66 @@ Diverge(post, sn, order) ==
      \cup D("num", post.num = sn.num)
      \cup D("ostate", \A o \in 1..Min(post.no, Len(sn.ostate)) :
                          (sn.ostate[o] = "released" \/ post.ostate[o] = sn.ostate[o]))
-     \cup D("stats", /\ post.stats.created = sn.created /\ post.stats.changed = sn.changed
+     \cup D("stats", /\ post.stats.created = sn.ncreated /\ post.stats.changed = sn.changed
                      /\ post.stats.recomputed = sn.recomputed /\ post.stats.invalidated = sn.invalidated
                      /\ post.stats.becameNec = sn.becamenec /\ post.stats.becameUnnec = sn.becameunnec)
      \cup D("order", "order" \notin DOMAIN sn \/ sn.order = <<>> \/ order = sn.order)
 
 ---------------------------------------------------------------------------
-TraceInit == st = InitState(DefaultMaxH) /\ l = 1 /\ nbad = 0 /\ ndiv = 0
+(* Node ids are allocation order.  An engine that makes other (legitimate)  *)
+(* scheduling choices than the spec may run two bind closures of one round  *)
+(* in the other order, or run a closure the spec did not need to run: its   *)
+(* ids then differ from the spec's from that round on.  Aligned says they   *)
+(* still coincide (same count, every node created in the same bind scope).  *)
+(* In the round where they stop coinciding only ids that existed before the *)
+(* round are compared; the rest of that run is not interpreted (a NOTE).    *)
+Aligned(post, sn) ==
+  /\ Len(sn.valid) = post.n
+  /\ \A n \in 1..post.n : \/ n \in SeqSet(sn.rel) \/ sn.scope[n] = -1 \/ sn.scope[n] = post.scope[n]
+
+TraceInit == st = InitState(DefaultMaxH) /\ l = 1 /\ nbad = 0 /\ ndiv = 0 /\ iddiv = FALSE
 
 TraceStep ==
   /\ l <= Len(Rec)
   /\ LET e == Rec[l] IN
      IF e.a = "reset"
      THEN /\ st' = InitState(Field(e, "maxh", DefaultMaxH))
+          /\ iddiv' = FALSE
           /\ UNCHANGED <<nbad, ndiv>>
           /\ PrintT(<<"RUN", Field(e, "run", 0), l>>)     \* heartbeat: which run is being judged
      ELSE IF e.a = "drop_all"
      THEN /\ st' = st
           /\ nbad' = nbad + Cardinality(JudgeDropAll(e))
-          /\ UNCHANGED ndiv
+          /\ UNCHANGED <<ndiv, iddiv>>
           /\ (JudgeDropAll(e) # {} => PrintT(<<"JUDGE", l, Field(e, "run", 0), ToJson(JudgeDropAll(e))>>))
+     ELSE IF iddiv
+     THEN \* ids no longer correspond: only what needs no correspondence is still judged
+          /\ st' = st
+          /\ iddiv' = iddiv
+          /\ LET bad == IF e.obs.panic = "" THEN JudgeAudit(st, e.obs) ELSE {} IN
+             /\ nbad' = nbad + Cardinality(bad)
+             /\ (bad # {} => PrintT(<<"JUDGE", l, Field(e, "run", 0), ToJson(bad)>>))
+          /\ UNCHANGED ndiv
      ELSE LET coneB == IF e.a = "stabilise"
                        THEN ConeOf(st, ObservedNodes(st, LiveObs(st) \cup LinkedObs(st)), {}) ELSE {}
               pre == Apply(st, e)
               post == IF e.a = "stabilise" THEN StabiliseFinish(pre) ELSE pre
               obs == e.obs
+              aligned == obs.panic # "" \/ ~Ok(post) \/ Aligned(post, obs.snap)
+              lim == IF aligned THEN post.n ELSE st.n
               bad == JudgePanic(post, obs)
                      \cup (IF obs.panic # "" /\ ~Ok(post) THEN JudgeReads(Recover(post), obs) ELSE {})
-                     \cup (IF obs.panic # "" /\ Ok(post) /\ e.a = "stabilise" THEN JudgeInvPartial(pre, obs, coneB) ELSE {})
+                     \cup (IF obs.panic # "" /\ Ok(post) /\ e.a = "stabilise" THEN JudgeInvPartial(pre, obs, coneB, lim) ELSE {})
                      \cup (IF obs.panic = "" /\ Ok(post)
-                           THEN JudgeReads(post, obs) \cup JudgeVars(post, obs) \cup JudgeRets(post, obs)
-                                \cup (IF e.a = "stabilise" THEN JudgeInv(pre, obs, coneB) \cup JudgeDlv(pre, obs) \cup JudgeInReads(pre, obs) \cup JudgeMemo(pre, obs) \cup JudgeCut(pre, obs) ELSE {})
-                                \cup JudgeAudit(post, obs) \cup JudgeOwn(post, obs, e.a = "stabilise")
+                           THEN JudgeReads(post, obs) \cup JudgeVars(post, obs, lim) \cup JudgeRets(post, obs)
+                                \cup (IF e.a = "stabilise" THEN JudgeInv(pre, obs, coneB, lim) \cup JudgeDlv(pre, obs) \cup JudgeInReads(pre, obs) \cup JudgeMemo(pre, obs) \cup JudgeCut(pre, obs, coneB, lim) ELSE {})
+                                \cup JudgeAudit(post, obs) \cup JudgeOwn(post, obs, e.a = "stabilise", lim)
                            ELSE {})
-              div == IF obs.panic = "" /\ Ok(post) THEN Diverge(post, obs.snap, IF e.a = "stabilise" THEN pre.order ELSE <<>>)
+              div == IF ~aligned THEN {"ids"}
+                     ELSE IF obs.panic = "" /\ Ok(post) THEN Diverge(post, obs.snap, IF e.a = "stabilise" THEN pre.order ELSE <<>>)
                      ELSE IF obs.panic = "" /\ ~Ok(post) THEN {"model_panics:" \o post.panic} ELSE {}
           IN /\ st' = Settle(post)
+             /\ iddiv' = ~aligned
              /\ nbad' = nbad + Cardinality(bad)
              /\ ndiv' = ndiv + Cardinality(div)
              /\ (bad # {} => PrintT(<<"JUDGE", l, Field(e, "run", 0), ToJson(bad)>>))
